@@ -1,6 +1,6 @@
 (* C01 — Every program the library produces is well-typed for its grammar.
    Only statements closed by [exact]; Print Assumptions; non-vacuity example. *)
-From GE Require Import Base Tape Grammar WellTyped Synth Sat SynthFrame SynthSat Linear MapProofs.
+From GE Require Import Base Tape Grammar WellTyped Synth Sat SynthFrame SynthSat Linear MapProofs ProgRefuted.
 Open Scope Z_scope.
 
 (* for EVERY class hierarchy whose annotations refine a base type they can produce values of
@@ -56,6 +56,14 @@ Theorem C01_tree_variation_well_typed : forall dd order g, extract dd order = Ok
      tree_cross_child fuel g k donor rctx st = (Ok v, st') -> WT (g_decl g) (g_reg g) false (start_ty g) v).
 Proof. exact tree_variation_wt. Qed.
 Print Assumptions C01_tree_variation_well_typed.
+
+(* what is left of known finding F38, as a theorem about the model: on E -> Rec(E)<weight 1> | Leaf<weight 0> creation under the
+   progressive decider never returns a program, whatever the random source answers and however much fuel it is given (the
+   implementation recurses until RecursionError) *)
+Theorem C01_progressive_zero_weight_refuted : forall fuel ctx st v st',
+  st_alts st = r_alts (g_reg g38) -> create_node fuel g38 DProg (TSym 0%nat) ctx [] st <> (Ok v, st').
+Proof. exact progressive_never_returns. Qed.
+Print Assumptions C01_progressive_zero_weight_refuted.
 
 (* ---- non-vacuity: E -> Lit(int, bool) | Pair(tuple[E, str]) | Many(list[E]) | Alt(Union[int, E]) ---- *)
 Definition ex1 : decl :=
